@@ -240,15 +240,60 @@ def _prompt_of(plat, mode=None, hostname="r1"):
     return d.prompt(mode or d.mode).decode().split("\n")[-1]
 
 
-def gen_op(rng, plat, hostname):
+# scenario families: which operations / device behaviours reach which twin function (used to aim the directed search)
+FAMILY_POOLS = {
+    "priv": ["acquire_priv", "acquire_priv", "acquire_priv", "send_config", "send_configs", "send_command", "set_gdm", "send_interactive", "get_prompt"],
+    "config": ["send_configs", "send_configs", "send_config", "send_configs_from_file", "register_configuration_session", "acquire_priv", "send_command"],
+    "command": ["send_command", "send_command", "send_commands", "send_commands", "send_commands_from_file", "channel_send_input", "get_prompt"],
+    "interactive": ["send_interactive", "send_interactive", "send_interactive", "send_command", "acquire_priv"],
+    "send_and_read": ["send_and_read", "send_and_read", "send_command", "get_prompt"],
+    "callback": ["read_callback", "read_callback", "send_command"],
+    "lifecycle": ["get_prompt", "send_command", "send_configs", "acquire_priv"],
+    "telnet": ["get_prompt", "send_command", "send_configs"],
+}
+ALL_FAMILIES = sorted(FAMILY_POOLS)
+FAMILY_OF = {
+    "_escalate": ["priv"], "_deescalate": ["priv"], "acquire_priv": ["priv"], "_acquire_appropriate_privilege_level": ["priv", "command", "config", "interactive"],
+    "send_configs": ["config"], "send_config": ["config"], "send_configs_from_file": ["config"], "_abort_config": ["config"],
+    "register_configuration_session": ["config"],
+    "send_command": ["command"], "send_commands": ["command", "config"], "_send_command": ["command", "config"], "send_commands_from_file": ["command"],
+    "send_interactive": ["interactive", "priv"], "send_inputs_interact": ["interactive", "priv"], "_read_until_explicit_prompt": ["interactive", "priv"],
+    "send_and_read": ["send_and_read"], "send_input_and_read": ["send_and_read"], "_read_until_prompt_or_time": ["send_and_read"],
+    "read_callback": ["callback"], "channel_authenticate_telnet": ["telnet"], "channel_authenticate_ssh": [],
+    "open": ["lifecycle", "telnet"], "close": ["lifecycle"], "__enter__": ["lifecycle"], "__exit__": ["lifecycle"], "commandeer": ["lifecycle"],
+    "__init__": ["lifecycle", "priv"],
+}
+
+
+def families_for(unaudited):
+    """scenario families that reach the changed twin functions; [] = no aim (everything)"""
+    fams = []
+    for d in unaudited:
+        fn = d[2]
+        if fn.endswith("_on_open") or fn.endswith("_on_close"):
+            fams += ["lifecycle"]
+        else:
+            fams += FAMILY_OF.get(fn, ALL_FAMILIES)      # get_prompt, read, send_input, _read_until_* ...: reached by everything
+    return sorted(set(fams))
+
+
+def gen_op(rng, plat, hostname, pool=None):
     net = plat != "generic"
+    if pool is not None:
+        pool = [x for x in pool if net or x not in ("send_config", "send_configs", "send_configs_from_file", "acquire_priv", "set_gdm", "register_configuration_session")]
+        pool = [x for x in pool if x != "register_configuration_session" or plat in ("arista_eos", "cisco_nxos")] or ["send_command"]
+        return _gen_op(rng, plat, hostname, rng.choice(pool))
     pool = ["get_prompt", "send_command", "send_command", "send_commands", "send_interactive", "send_and_read", "read_callback",
             "send_commands_from_file", "channel_send_input"]
     if net:
         pool += ["send_config", "send_configs", "send_configs", "acquire_priv", "send_configs_from_file", "set_gdm"]
         if plat in ("arista_eos", "cisco_nxos"):
             pool += ["register_configuration_session"]
-    name = rng.choice(pool)
+    return _gen_op(rng, plat, hostname, rng.choice(pool))
+
+
+def _gen_op(rng, plat, hostname, name):
+    net = plat != "generic"
     kw = {}
     if name == "get_prompt":
         return ["get_prompt"]
@@ -341,17 +386,26 @@ def gen_op(rng, plat, hostname):
     return ["read_callback", cbs, {"initial_input": rng.choice(["show version", "show clock"])}]
 
 
-def gen_scenario(rng, plat=None):
-    plat = plat or rng.choice(PLATS)
+def gen_scenario(rng, plat=None, family=None):
+    if family == "priv" and plat is None:
+        plat = rng.choice(["network", "cisco_iosxe", "cisco_nxos", "arista_eos", "cisco_iosxe", "juniper_junos", "cisco_iosxr"])
+    if family in ("config", "priv") and plat == "generic":
+        plat = None
+    plat = plat or rng.choice(PLATS if family not in ("config", "priv") else PLATS[1:])
     dplat = DEVPLAT.get(plat, plat)
     hostname = rng.choice(["r1", "r1", "core-sw1.lab", "a"])
     dev = {"platform": dplat, "hostname": hostname, "confirms": CONFIRMS}
     conn = {}
-    if plat in HAS_EXEC and rng.random() < 0.5:
+    if plat in HAS_EXEC and rng.random() < (0.85 if family == "priv" else 0.5):
         dev["login_mode"] = "exec"
         if rng.random() < 0.7:
             dev["enable_password"] = "en"
-            conn["auth_secondary"] = rng.choice(["en", "en", "en", "en", "en", "wrong", ""])
+            # right / wrong / absent secret; a device that rejects it either asks again (and the session stalls) or gives up and
+            # re-displays the prompt of the level the session is still in
+            conn["auth_secondary"] = rng.choice(["en", "en", "en", "wrong", "wrong", ""])
+            dev["pw_attempts"] = rng.choice([1, 1, 3])
+            if rng.random() < 0.3:
+                dev["reject_text"] = rng.choice(["% Access denied", "% Bad passwords", ""])
     elif plat != "generic" and rng.random() < 0.15:
         dev["login_mode"] = "configuration"
     if rng.random() < 0.5:
@@ -376,13 +430,13 @@ def gen_scenario(rng, plat=None):
     scn = {"platform": plat, "dev": dev, "conn": conn}
     c = rng.random()
     scn["cuts"] = "whole" if c < 0.4 else "one" if c < 0.55 else ["rng", rng.randrange(1 << 30), rng.choice([3, 7, 40])]
-    if rng.random() < 0.25:
+    if rng.random() < (0.6 if family == "lifecycle" else 0.25):
         act = rng.choice(["eof", "eof", "exc:ScrapliConnectionError", "exc:OSError", "exc:ScrapliTimeout", "silent", "exc:ValueError"])
         if rng.random() < 0.65:
             scn["faults"] = [{"at_read": rng.choice([1, 2, 3, 5, 8, 13, 21, 34, 55, rng.randint(1, 200)]), "action": act}]
         else:
             scn["faults"] = [{"at_write": rng.choice([1, 2, 3, 4, 6, 9, 14, rng.randint(1, 40)]), "action": act}]
-    if rng.random() < 0.15:
+    if rng.random() < (0.9 if family == "telnet" else 0.15):
         tel = {"user": "admin", "password": "pw"}
         r = rng.random()
         if r < 0.2:
@@ -394,14 +448,14 @@ def gen_scenario(rng, plat=None):
     ops = []
     if rng.random() < 0.05:
         ops.append(gen_op(rng, plat, hostname))           # an operation before open
-    commandeer = plat != "generic" and not scn.get("telnet") and rng.random() < 0.06
+    commandeer = plat != "generic" and not scn.get("telnet") and rng.random() < (0.25 if family == "lifecycle" else 0.06)
     if commandeer:
         scn["commandeer"] = True
         ops += [["donor_open"], ["commandeer", {"execute_on_open": rng.random() < 0.8}]]
     else:
-        ops.append(["enter"] if rng.random() < 0.2 else ["open"])
+        ops.append(["enter"] if rng.random() < (0.5 if family == "lifecycle" else 0.2) else ["open"])
     for _ in range(rng.choice([1, 1, 2, 3, 4, 6])):
-        op = gen_op(rng, plat, hostname)
+        op = gen_op(rng, plat, hostname, pool=FAMILY_POOLS[family] if family and rng.random() < 0.85 else None)
         if isinstance(op[-1], dict) and op[-1].get("privilege_level") == "sess1" and rng.random() < 0.75 \
                 and ["register_configuration_session", "sess1"] not in ops:
             ops.append(["register_configuration_session", "sess1"])
@@ -433,6 +487,15 @@ def enumerated_scenarios():
                     ["send_configs", ["interface lo0", "bad line", "no shutdown"], {}], ["acquire_priv", "configuration"]]
             for lv in CFG_LEVELS.get(plat, []):
                 ops.append(["send_configs", ["interface lo0", "bad line"], {"privilege_level": lv, "stop_on_failed": True}])
+        if plat in HAS_EXEC:
+            # enable secret right / rejected (device asks once, then re-displays the old prompt) / rejected (device keeps asking) / not needed
+            for sec, att, devpw in (("en", 3, "en"), ("wrong", 1, "en"), ("", 1, "en"), ("wrong", 3, "en"), ("", 3, None)):
+                for cuts in ("whole", "one"):
+                    dev = {"platform": DEVPLAT.get(plat, plat), "login_mode": "exec", "pw_attempts": att}
+                    if devpw:
+                        dev["enable_password"] = devpw
+                    out.append({"platform": plat, "dev": dev, "conn": {"auth_secondary": sec}, "cuts": cuts,
+                                "ops": [["open"], ["send_command", "show clock", {}], ["acquire_priv", "configuration"], ["close"]]})
         for op in ops:
             for cuts in ("whole", "one"):
                 dev = {"platform": DEVPLAT.get(plat, plat), "confirms": CONFIRMS, "fail_lines": ["bogus", "bad line"]}
@@ -810,9 +873,15 @@ def run(tier, seed):
         handle_pairs(ck, run_pairs(scns[i:i + 500]), S)
     ck.extra["scenarios_corpus"], ck.extra["scenarios_enumerated_small_scope"], ck.extra["scenarios_generated"] = ncorpus, nenum, ngen
     phases['paired-scenarios'], tp = round(time.time() - tp, 1), time.time()
+    # ---------------------------------------------------------------- 7a the two real Telnet transports over scripted recv()/read() results
+    try:
+        telnet_pair_cases(ck, T, 1500 if tier == "quick" else 30000)
+    except Exception as e:      # noqa
+        ck.proof_broken("scripted Telnet pair rig", repr(e))
     # ---------------------------------------------------------------- 7 real Telnet transports over loopback
     rig_trouble = []
     real = REAL_TELNET_SCNS if tier == "thorough" else REAL_TELNET_SCNS[:3]
+    real = real + [dict(REAL_TELNET_SCNS[0], server={"nego": 4}, dev=dict(REAL_TELNET_SCNS[0]["dev"], nl="\r\x00\n"))]     # option 0, NUL-padded CR
     for scn in real:
         try:
             s, a = T.run_pair(scn)
@@ -876,33 +945,8 @@ def run(tier, seed):
         ck.extra["advisory_witness_replay_trouble"] = repr(e)
     phases['finding-witnesses'], tp = round(time.time() - tp, 1), time.time()
     # ---------------------------------------------------------------- 9 something no longer checks: widen the search for a failing input
-    if ck.broken and not ck.violations and any(d[0].startswith("transport") for d in unaudited):
-        # a Telnet transport twin changed: all real-transport scenarios x negotiation variants
-        for scn in REAL_TELNET_SCNS:
-            for nv in range(len(T.NEGO_VARIANTS)):
-                sc2 = dict(scn, server={"nego": nv})
-                try:
-                    s, a = T.run_pair(sc2)
-                except Exception as e:      # noqa
-                    continue
-                d = T.compare_pair(s, a)
-                ck.extra["programs"] = ck.extra.get("programs", 0) + 2
-                if d:
-                    ck.violation({"rig": "real-telnet", "scenario": sc2, "diffs": [list(map(str, x)) for x in d[:6]], "finding": None},
-                                 "real Telnet transports over loopback: sync and asyncio stacks differ", matcher)
-                    break
-            if ck.violations:
-                break
     if ck.broken and not ck.violations:
-        focus = sorted({p for d in unaudited for p in PLATS if PAIR_OF_PLAT.get(p, p) == d[0]})
-        budget = 90 if tier == "quick" else 400
-        t0 = time.time()
-        extra = 0
-        while time.time() - t0 < budget and not ck.violations:
-            batch = [gen_scenario(ck.rng, plat=ck.rng.choice(focus) if focus and ck.rng.random() < 0.7 else None) for _ in range(300)]
-            handle_pairs(ck, run_pairs(batch), S)
-            extra += len(batch)
-        ck.extra["widened_search_scenarios"] = extra
+        directed_search(ck, tier, unaudited, S, T, A)
     phases["widened-search"] = round(time.time() - tp, 1)
     ck.extra["phase_seconds"] = phases
     ck.extra["programs"] = ck.extra.get("programs", 0) + 2 * len(auth_cases)
@@ -910,6 +954,91 @@ def run(tier, seed):
                     "proof obligations inside the same evidence: the parity table and the twin-diff pin decided by the Lean kernel on regenerated data, "
                     "login-variant agreement proved for all tapes")
     return ck.finish()
+
+
+TELNET_CORPUS = [
+    # option 0 (TRANSMIT-BINARY) in both directions, NUL-padded carriage returns, NUL right behind / inside a command
+    [bytes([255, 251, 1, 255, 251, 3]) + b"\r\x00\nUser Access Verification\r\x00\n", bytes([255, 253, 0, 255, 251, 0, 255, 253, 24]) + b"\r\x00\nUsername: "],
+    [bytes([255, 253]), bytes([0]) + b"login: "],
+    [bytes([255]), bytes([251]), bytes([0, 0]) + b"x"],
+    [b"a\x00b" + bytes([255, 254, 0]) + b"\x00", bytes([255, 252, 255, 0, 255, 253, 3])],
+]
+
+
+def telnet_pair_cases(ck, T, n, max_cmds=10):
+    """same recv()/read() results into the real TelnetTransport and AsynctelnetTransport; oracle: equal data and equal replies"""
+    cases = list(TELNET_CORPUS) + [T.gen_stream(ck.rng, max_cmds) for _ in range(n)]
+    for chunks in cases:
+        s, a = T.scripted_pair(chunks)
+        ncmd = b"".join(chunks).count(b"\xff")
+        ck.case(("telnet-pair", tuple(chunks)), nontrivial=ncmd > 0 and len(chunks) > 1, sample={"telnet_pair": [hexs(c) for c in chunks][:10]},
+                tags=("telnet-pair", "telnet-pair-nul" if b"\x00" in b"".join(chunks) else "telnet-pair-no-nul"))
+        ck.extra["programs"] = ck.extra.get("programs", 0) + 2
+        if s != a:
+            ck.violation({"telnet_pair": [hexs(c) for c in chunks], "sync": [str(s[0]), hexs(s[1])], "async": [str(a[0]), hexs(a[1])], "finding": None},
+                         f"Telnet transports differ on the same received bytes: sync data/replies={s[0]!r}/{s[1].hex()} async={a[0]!r}/{a[1].hex()}", matcher)
+        else:
+            ck.traces_validated += 1
+
+
+def directed_search(ck, tier, unaudited, S, T, A):
+    """a proof obligation / correspondence no longer checks and no failing input is known yet: aim the generators at what changed.
+    For every un-audited twin function (pair, class K, method M) the static map FAMILY_OF names the scenario families that reach K.M;
+    platform drivers and hooks additionally pin the platform.  Several PRNG streams, bounded time."""
+    t0 = time.time()
+    budget = 150 if tier == "quick" else 400
+    fams = families_for(unaudited)
+    focus = sorted({p for d in unaudited for p in PLATS if PAIR_OF_PLAT.get(p, p) == d[0]})
+    ck.extra["directed_search"] = {"families": fams, "platforms": focus, "functions": [f"{d[1]}.{d[2]}" for d in unaudited]}
+    n = 0
+    if any(d[0].startswith("transport") for d in unaudited) or not unaudited:
+        # a Telnet transport twin changed: scripted pair rig at volume, then every loopback scenario x negotiation variant
+        telnet_pair_cases(ck, T, 20000)
+        n += 20000
+        for scn in REAL_TELNET_SCNS:
+            for nv in range(len(T.NEGO_VARIANTS)):
+                if ck.violations:
+                    break
+                sc2 = dict(scn, server={"nego": nv})
+                try:
+                    s, a = T.run_pair(sc2)
+                except Exception:      # noqa
+                    continue
+                d = T.compare_pair(s, a)
+                ck.extra["programs"] = ck.extra.get("programs", 0) + 2
+                if d:
+                    ck.violation({"rig": "real-telnet", "scenario": sc2, "diffs": [list(map(str, x)) for x in d[:6]], "finding": None},
+                                 "real Telnet transports over loopback: sync and asyncio stacks differ", matcher)
+    if "telnet" in fams and not ck.violations:
+        # the login loops themselves: many more tapes through both real loops (pairwise oracle inside the theorem's domain)
+        import random
+        rng = random.Random(ck.seed + 77)
+
+        async def many(cases):
+            return [await A.run_async(tA, u, p, iv) for _tS, tA, u, p, iv in cases]
+        cases = [gen_auth_case(rng) for _ in range(5000)]
+        ares = asyncio.run(many(cases))
+        for (tS, tA, u, p, iv), ar in zip(cases, ares):
+            if no_eof(tS) and no_kick(tS, iv) and no_kick(tA, iv):
+                sr = A.run_sync(tS, u, p, iv)
+                if sr != ar:
+                    ck.violation({"auth": {"sync": tape_json(tS), "async": tape_json(tA), "user": u, "password": p, "interval": iv}, "finding": None},
+                                 "in-channel telnet login: sync and asyncio loops differ on a dialogue without connection error and without an elapsed return interval", matcher)
+                    break
+        n += 5000
+    stream = 0
+    while time.time() - t0 < budget and not ck.violations:
+        import random
+        stream += 1
+        rng = random.Random((ck.seed + 1) * 1000003 + stream)          # several independent PRNG streams
+        batch = []
+        for _ in range(300):
+            fam = rng.choice(fams) if fams and rng.random() < 0.85 else None
+            plat = rng.choice(focus) if focus and rng.random() < 0.8 else None
+            batch.append(gen_scenario(rng, plat=plat, family=fam))
+        handle_pairs(ck, run_pairs(batch), S)
+        n += len(batch)
+    ck.extra["widened_search_scenarios"] = n
 
 
 def handle_pairs(ck, results, S):
@@ -973,6 +1102,11 @@ def replay(path):
         live, _ = live_mismatches()
         print("live mismatches:", sorted(live))
         return 1 if tuple(case["parity"]) in live else 0
+    if "telnet_pair" in case:
+        from vlib.common import unhex
+        s, a = T.scripted_pair([unhex(x) for x in case["telnet_pair"]])
+        print("sync ", s, "\nasync", a)
+        return 1 if s != a else 0
     if "ssh_auth" in case:
         c = case["ssh_auth"]
         s = A.run_ssh_sync(tape_from_json(c["sync"]), "pw", "phrase")
